@@ -24,7 +24,8 @@ enum OpKind
     OP_CMSET = 8,      // capture module reconfigure / restart (what: 0 device, 1 stream, 2 restart)
     OP_STATUS = 9,     // operator action on the status tracker (what: 1 remove device, 2 remove interface, 3 clear)
     OP_BUILD = 10,     // payload builder step (C13)
-    OP_PROBE = 11      // direct validity probe of a faulted payload (C03)
+    OP_PROBE = 11,     // direct validity probe of a faulted payload (C03)
+    OP_STATUPD = 12    // Status::update with a packet assembled through the API (not decoded from the wire)
 };
 
 // fault operators (sub-item "f", key type)
